@@ -391,6 +391,78 @@ func subRawPeer(args []string) {
 		case <-time.After(2 * time.Second):
 			fmt.Println("BAD a response that cannot be decoded arrived while the closure passed by that call was still running on our side: 2 s later Link still blocks on the dead link (the failing call waits for its own closure before it reports the error)")
 		}
+	case "bad-call-id-error-response":
+		// three calls of ours in flight; the peer sends a response frame the codec rejects (a NUMBER as call id) that also
+		// carries a non-empty err: the link ends with the decode error and every call in flight returns an error
+		const n = 3
+		res := make(chan error, n)
+		for i := 0; i < n; i++ {
+			go func() { _, err := rem.Get(context.Background()); res <- err }()
+		}
+		for i := 0; i < n; i++ {
+			if _, ok := nextReq(); !ok {
+				fmt.Println("BAD no request written")
+				return
+			}
+		}
+		inRes.Put([]byte(`{"call":12345,"value":null,"err":"boom"}`))
+		select {
+		case err := <-linkErr:
+			if err == nil {
+				fmt.Println("BAD Link returned nil after a response frame the codec rejects")
+			}
+		case <-time.After(2 * time.Second):
+			fmt.Println("BAD a response frame the codec rejects (a number as call id, a non-empty err member) did not end the link: Link still blocks")
+		}
+		for i := 0; i < n; i++ {
+			select {
+			case err := <-res:
+				if err == nil {
+					fmt.Println("BAD a call in flight returned a nil error after the undecodable response frame")
+				}
+			case <-time.After(2 * time.Second):
+				fmt.Printf("BAD %d of %d calls in flight are still blocked 2 s after a response frame that could not be decoded\n", n-i, n)
+				i = n
+			}
+		}
+	case "dup-responses-then-teardown":
+		// the peer answers every call twice, then disconnects: once the link has ended and its reads have returned, the
+		// remote is no longer enumerated (its disconnect notifications have been given)
+		for i := 0; i < 20; i++ {
+			// (the calls' own contexts are never cancelled: a surplus publisher is released by Free / Close only)
+			done := make(chan error, 1)
+			go func() { _, err := rem.Ping(context.Background()); done <- err }()
+			if id, ok := nextReq(); ok {
+				frame := fmt.Sprintf(`{"call":%q,"value":"pong","err":""}`, id)
+				inRes.Put([]byte(frame))
+				inRes.Put([]byte(frame))
+			}
+			select {
+			case <-done:
+			case <-time.After(300 * time.Millisecond):
+			}
+		}
+		cancel()
+		for _, q := range []*Queue{in, inRes, out, outReq} {
+			q.Close(errors.New("peer gone"))
+		}
+		select {
+		case <-linkErr:
+		case <-time.After(2 * time.Second):
+			fmt.Println("BAD Link did not return after its context was cancelled and its transport closed")
+		}
+		gone := false
+		for i := 0; i < 2000 && !gone; i++ {
+			k := 0
+			reg.ForRemotes(func(id string, r rpRemote) error { k++; return nil })
+			gone = k == 0
+			if !gone {
+				time.Sleep(time.Millisecond)
+			}
+		}
+		if !gone {
+			fmt.Println("BAD the link has ended and its transport reads have returned, yet 2 s later its remote is still enumerated: no disconnect notification was given (the read loops hang in the teardown of the pending-call table)")
+		}
 	case "error-response-write-fails":
 		atomic.StoreInt32(&failWrite, 1)
 		in.Put([]byte(`{"call":"c1","function":"Fail","args":[]}`))
@@ -414,14 +486,14 @@ func subRawPeer(args []string) {
 func runRawPeer(rep *Report, prop string) {
 	rel := map[string][]string{
 		"C05": {"dup-responses", "bad-closure-id-spawned", "many-links-new-names"},
-		"C15": {"dup-responses", "nil-hooks-precancelled"},
-		"C14": {"nil-hooks-precancelled"},
+		"C15": {"dup-responses", "nil-hooks-precancelled", "dup-responses-then-teardown"},
+		"C14": {"nil-hooks-precancelled", "dup-responses-then-teardown"},
 		"C09": {"bad-response-value", "value-for-error-only", "pipelined-big-args"},
 		"C08": {"pipelined-big-args"},
 		"C06": {"nil-hooks-precancelled", "bad-response-value", "bad-closure-id", "bad-closure-id-spawned", "pipelined-big-args", "many-links-new-names"},
-		"C16": {"bad-closure-id", "error-response-write-fails", "bad-response-while-closure-runs"},
+		"C16": {"bad-closure-id", "error-response-write-fails", "bad-response-while-closure-runs", "bad-call-id-error-response"},
 		"C17": {"bad-closure-id", "value-for-error-only"},
-		"C03": {"error-response-write-fails", "bad-response-while-closure-runs"},
+		"C03": {"error-response-write-fails", "bad-response-while-closure-runs", "bad-call-id-error-response"},
 		"C13": {"two-links-dup-answers"},
 		"C12": {"dup-responses"},
 		"C19": {"dup-responses"},
